@@ -38,4 +38,9 @@ for chk in "$@"; do
   v=$(echo "$out" | grep -c '^VIOLATION')
   echo "check=$chk exit=$code violations=$v" | tee -a "$res"
   echo "$out" | grep -E '^(VIOLATION|SUMMARY|ERROR)' | head -5 | tee -a "$res"
+  # keep the replay artefacts (smallest failing case per signature) next to the seed
+  n=0
+  for rp in $(echo "$out" | grep '^VIOLATION' | sed -n 's/.*replay=\([^ ]*\).*/\1/p' | head -3); do
+    [ -f "$rp" ] && cp "$rp" "$SD/replay-$chk-$n.$(echo "$rp" | sed 's/.*\.//')" && n=$((n+1))
+  done
 done
